@@ -406,6 +406,14 @@ def r14_5_6(ctx: Ctx, cg: CallGraph) -> None:
                 ctx.violation("R14.6", short, f"memoised {d}", fi.where(),
                               f"{short} is memoised ({d}) on the encode path" + ("; it reads files, so a later encode returns stale content" if io else
                               "; a value computed for one document is served to later ones (keys must capture every input)"))
+        # manual memo: a container that outlives the call, read and written here, whose key omits inputs of the stored value
+        from ..effects import memo_key_gaps
+        for node, cont, kl, vl, missing in memo_key_gaps(pm, fi):
+            ctx.instance("R14.6", fi.where(node), f"{short}: manual memo in {cont}: key depends on {kl}; value depends on {vl}")
+            if missing:
+                ctx.violation("R14.6", short, f"memo {cont} key lacks {','.join(missing)[:80]}", fi.where(node),
+                              f"{short}: the value stored in {cont} is computed from {missing} but the key is built from {kl} only: a later page/document is served the "
+                              "value computed for an earlier one")
     ctx.instance("R14.6", "src/rtflite", f"{len(reach)} functions scanned for memoisation and process-state writes")
 
 
